@@ -20,7 +20,7 @@
    (harness/props/C09.py, C10.py).
 
    cfg selects the behaviour before / after the three repairs in pycaption (fix2: default-argument dicts,
-   fix3: SCCReader state reset, fix15: open_span reset); theorems are about `fixed`, the `_refuted` ones about the
+   fix3: SCCReader state reset, fix15: open_span reset); the footprint theorems hold for every cfg, the determinism / isolation theorems need the repairs, the `_refuted` ones are about the
    other settings. *)
 From Coq Require Import List ZArith Bool Arith.
 From PV Require Import lib.Sx lib.Str lib.Result model.Store.
@@ -684,7 +684,8 @@ Inductive edit : Type :=
 | ECapStyle (li ci : nat) (k v : tree)               (* caption.style[k] = v *)
 | ECapLayout (li ci : nat) (lay : tree)              (* caption.layout_info = Layout(..) *)
 | ENodeField (li ci ni : nat) (f : Z) (v : tree)     (* node.content = v  /  node.layout_info = Layout(..) *)
-| EDelCap (li ci : nat).                             (* del captions[ci] *)
+| EDelCap (li ci : nat)                              (* del captions[ci] *)
+| ENodeDict (li ci ni : nat) (k v : tree).           (* node.content[k] = v : a STYLE node's content dict, in place *)
 
 Definition nth_mod {A} (l : list A) (n : nat) (d : A) : A :=
   match l with [] => d | _ => nth (Nat.modulo n (length l)) l d end.
@@ -727,6 +728,13 @@ Definition do_edit (c : cfg) (st : store) (s : val) (e : edit) : store :=
       let kv := nth_mod (set_langs st s) li (VNone, VNone) in
       let n := match elems st (snd kv) with [] => O | l => Nat.modulo ci (length l) end in
       set_items st (snd kv) (remove_nth_elem n (items_of st (snd kv)))
+  | ENodeDict li ci ni k v =>
+      let n := nth_mod (elems st (field st (the_cap st s li ci) (VInt 3))) ni VNone in
+      let d := field st n (VInt 2) in
+      match d with
+      | VLoc _ => set_field st d (vkey_of_tree k) (vkey_of_tree v)
+      | _ => st       (* a text / break node: content is not a dict, nothing happens *)
+      end
   end.
 
 (* ---- histories ------------------------------------------------------------------------------------------------- *)
